@@ -275,16 +275,18 @@ theorem segments_some (saLen : Nat) (hlen : saLen = lcp.size) (hmin : 0 ≤ minL
       some (if saLen = 0 then [] else scanLCP lcp minLen maxLen) := by
   subst hlen
   unfold segments
-  have h1 : ¬ lcp.size ≠ lcp.size := by omega
-  have h2 : (0 ≤ minLen ∧ minLen ≤ 2147483647) := by omega
+  have h2 : ¬ minLen < 0 := by omega
   have h3 : ¬ maxLen < minLen := by omega
-  by_cases h0 : lcp.size = 0 <;> simp [h2, h3, hmax, h0]
+  have h4 : ¬ minLen > 2147483647 := by omega
+  have h5 : ¬ maxLen > 2147483647 := by omega
+  by_cases h0 : lcp.size = 0 <;> simp [h2, h3, h4, h5, h0]
 
 /-- the empty text: no callbacks, no panic (D9) -/
 theorem segments_empty (hmin : 0 ≤ minLen) (hmax : maxLen ≤ 2147483647) (hmin' : minLen ≤ 2147483647) :
     segments 0 #[] minLen maxLen = some [] := by
   unfold segments
-  by_cases h : maxLen < minLen <;> simp [hmin, hmax, hmin', h]
+  have h2 : ¬ minLen < 0 := by omega
+  simp [h2]
 
 /-- an empty table: the scan itself reports nothing -/
 theorem scanLCP_empty : scanLCP #[] minLen maxLen = [] := by
@@ -295,7 +297,8 @@ theorem segments_maxLen_lt (saLen : Nat) (hlen : saLen = lcp.size) (hmin : 0 ≤
     (hmin' : minLen ≤ 2147483647) (hmax : maxLen ≤ 2147483647) (h : maxLen < minLen) :
     segments saLen lcp minLen maxLen = some [] := by
   unfold segments
-  simp [hlen, hmin, hmin', hmax, h]
+  have h2 : ¬ minLen < 0 := by omega
+  simp [hlen, h2, h]
 
 end Scan
 
